@@ -52,6 +52,20 @@ let out_curves (c : float SlurryCalc.curves) : string =
 let dispatch (name : string) (a : string array) : string =
   pos := 0;
   match name with
+  | "Interp.lookup" ->
+    (* n k1 v1 .. kn vn xlo xhi tol key *)
+    let g = get_pairs a in
+    let xlo = get_bool a in let xhi = get_bool a in let tol = get_num a in let k = get_num a in
+    (match Interp.lookup fN g xlo xhi tol k with Some v -> out_num v | None -> raise (Py "IndexError"))
+  | "Interp.table" ->
+    let name = next a in let k = get_num a in
+    let look t xlo xhi tol = Interp.lookup_or_fail fN t xlo xhi tol k in
+    out_num (match name with
+      | "water_density" -> look (Tables.water_density fN) Tables.water_density_xlo Tables.water_density_xhi (Tables.water_density_tol fN)
+      | "water_dynamic_viscosity" -> look (Tables.water_dynamic_viscosity fN) Tables.water_dynamic_viscosity_xlo Tables.water_dynamic_viscosity_xhi (Tables.water_dynamic_viscosity_tol fN)
+      | "water_viscosity" -> look (Tables.water_viscosity fN) Tables.water_viscosity_xlo Tables.water_viscosity_xhi (Tables.water_viscosity_tol fN)
+      | "Arel_to_beta" -> look (Tables.coq_Arel_to_beta fN) Tables.coq_Arel_to_beta_xlo Tables.coq_Arel_to_beta_xhi (Tables.coq_Arel_to_beta_tol fN)
+      | _ -> raise Not_found)
   | "Fracs.create_fracs" ->
     let g = get_pairs a in
     let dp = get_num a in let nu = get_num a in let rhol = get_num a in let rhos = get_num a in
